@@ -68,17 +68,19 @@ func (m *Module) handleParticipantJoin(ctx context.Context, respond hwebsocket.R
 	// Only the asset instances of entities that are in the session: for a
 	// moment an entity that is going away with its owner is already out of the
 	// session while its asset instance is not released yet.
-	assetInstances := make([]*odalpb.AssetInstance, 0)
-	for _, ai := range m.state.AssetInstances() {
-		if _, ok := m.currentSession.EntityByID(ai.EntityId); ok {
-			assetInstances = append(assetInstances, ai)
+	m.currentSession.Exclusive(func([]*models.Participant) {
+		assetInstances := make([]*odalpb.AssetInstance, 0)
+		for _, ai := range m.state.AssetInstances() {
+			if _, ok := m.currentSession.EntityByID(ai.EntityId); ok {
+				assetInstances = append(assetInstances, ai)
+			}
 		}
-	}
 
-	respond.Send(&odalpb.State{
-		Type:           odalpb.MsgType_MSG_TYPE_ODAL_STATE,
-		Timestamp:      timestamppb.Now(),
-		AssetInstances: assetInstances,
+		respond.Send(&odalpb.State{
+			Type:           odalpb.MsgType_MSG_TYPE_ODAL_STATE,
+			Timestamp:      timestamppb.Now(),
+			AssetInstances: assetInstances,
+		})
 	})
 	return nil
 }
